@@ -284,6 +284,42 @@ impl CaseKind for FwdCase {
     }
 }
 
+/// Several forward calls one after the other in one thread, each judged like a `FwdCase`: a result must not
+/// depend on calls made before it (hidden caches keyed too coarsely).
+#[derive(Clone, Debug, Serialize, Deserialize)]
+pub struct SeqCase {
+    pub calls: Vec<FwdCase>,
+}
+
+impl CaseKind for SeqCase {
+    const KIND: &'static str = "forward-op-sequence";
+    fn size(&self) -> usize {
+        self.calls.iter().map(|c| c.size()).sum::<usize>() + 1
+    }
+    fn sample(&self) -> Value {
+        json!(self.calls.iter().map(|c| c.sample()).collect::<Vec<_>>())
+    }
+    fn run(&self) -> Outcome {
+        let mut last = Outcome::discard("empty sequence");
+        let mut key = KeyHasher::new("seq");
+        for (i, c) in self.calls.iter().enumerate() {
+            let o = c.run();
+            key.u(o.key);
+            match &o.verdict {
+                Verdict::Fail(f) => {
+                    let mut f = f.clone();
+                    f.detail = format!("call {} of {} in one thread: {}", i + 1, self.calls.len(), f.detail);
+                    f.signature = format!("{}:after-{}-earlier-calls", f.signature, i.min(1));
+                    return Outcome { verdict: Verdict::Fail(f), nontrivial: true, key: key.finish(), classes: o.classes };
+                }
+                Verdict::Internal(_) => return o,
+                _ => last = o,
+            }
+        }
+        Outcome { verdict: last.verdict, nontrivial: self.calls.len() >= 2, key: key.finish(), classes: { let mut c = last.classes; c.push("kind:call-sequence".into()); c } }
+    }
+}
+
 /// Gradients delivered to the tracked operands of one operation: op(leaves).backward(seed).
 #[derive(Clone, Debug, Serialize, Deserialize)]
 pub struct GradCase {
